@@ -150,6 +150,12 @@ class SourceMapping:
         self.line = line_number
         self.column = column
 
+    def __eq__(self, other: object) -> bool:
+        if type(self) is not type(other):
+            return False
+        assert isinstance(other, SourceMapping)
+        return self.line == other.line and self.column == other.column
+
     def serialize(self) -> list[Any]:
         return [self.line, self.column]
 
@@ -193,6 +199,20 @@ class MacroSourceMapping(SourceMapping):
         # The mapping of parameter values for the current macro context, only for informational
         # purposes. Contains the string representation or integer value
         self.parameter_mapping = parameter_mapping
+
+    def __eq__(self, other: object) -> bool:
+        if not super().__eq__(other):
+            return False
+        assert isinstance(other, MacroSourceMapping)
+        return (
+            self.relpath_included_file == other.relpath_included_file
+            and self.macro_name == other.macro_name
+            # called_in is a list after deserializing
+            and (None if self.called_in is None else tuple(self.called_in))
+            == (None if other.called_in is None else tuple(other.called_in))
+            and self.return_addr == other.return_addr
+            and self.parameter_mapping == other.parameter_mapping
+        )
 
     def serialize(self) -> list[Any]:
         return [
